@@ -343,6 +343,8 @@ func (x *Exec) execRange(st *State, s *ast.RangeStmt, label string) *State {
 			delete(st.vars, valV)
 		}
 		x.assumeInvs(st, li)
+		x.iterStart = append(x.iterStart, st.clone())
+		defer func() { x.iterStart = x.iterStart[:len(x.iterStart)-1] }()
 		exit := st.clone()
 		exit.pc = append(exit.pc, Eq(idx, ln))
 		body := st.clone()
@@ -362,6 +364,7 @@ func (x *Exec) execRange(st *State, s *ast.RangeStmt, label string) *State {
 			setVar(back, keyV, Add(idx, IntLit(1)))
 			x.rangeIdx[len(x.rangeIdx)-1] = Add(idx, IntLit(1))
 			x.checkInvs(back, li, "inv-keep", s)
+			x.checkProgress(back, li, s)
 			x.rangeIdx[len(x.rangeIdx)-1] = idx
 		}
 		if keyV != nil && s.Tok == token.DEFINE {
@@ -384,6 +387,8 @@ func (x *Exec) execRange(st *State, s *ast.RangeStmt, label string) *State {
 		x.visStack[top] = vis
 		x.havocLoop(st, s.Body)
 		x.assumeInvs(st, li)
+		x.iterStart = append(x.iterStart, st.clone())
+		defer func() { x.iterStart = x.iterStart[:len(x.iterStart)-1] }()
 		// The ghost key set is only meaningful while the map's key set is fixed:
 		// no call made by the body may write maps of this type, and every direct
 		// map write in the body is proved (obligation kind "frame") to go to a
@@ -452,6 +457,7 @@ func (x *Exec) execRange(st *State, s *ast.RangeStmt, label string) *State {
 		if back != nil {
 			x.visStack[top] = mk("store", visSort, vis, k, tTrue)
 			x.checkInvs(back, li, "inv-keep", s)
+			x.checkProgress(back, li, s)
 			x.visStack[top] = vis
 		}
 		return x.merge(n, append([]*State{exit}, lc.breaks...))
@@ -474,6 +480,8 @@ func (x *Exec) execRange(st *State, s *ast.RangeStmt, label string) *State {
 			st.assume(And(Le(IntLit(0), idx), Or(Le(idx, bound), Eq(idx, IntLit(0)))))
 			setVar(st, keyV, idx)
 			x.assumeInvs(st, li)
+			x.iterStart = append(x.iterStart, st.clone())
+			defer func() { x.iterStart = x.iterStart[:len(x.iterStart)-1] }()
 			exit := st.clone()
 			exit.pc = append(exit.pc, Ge(idx, bound))
 			body := st.clone()
@@ -496,6 +504,7 @@ func (x *Exec) execRange(st *State, s *ast.RangeStmt, label string) *State {
 					setVar(back, keyV, Add(idx, IntLit(1)))
 				}
 				x.checkInvs(back, li, "inv-keep", s)
+				x.checkProgress(back, li, s)
 			}
 			return x.merge(n, append([]*State{exit}, lc.breaks...))
 		}
@@ -505,6 +514,8 @@ func (x *Exec) execRange(st *State, s *ast.RangeStmt, label string) *State {
 		n := len(st.pc)
 		x.havocLoop(st, s.Body)
 		x.assumeInvs(st, li)
+		x.iterStart = append(x.iterStart, st.clone())
+		defer func() { x.iterStart = x.iterStart[:len(x.iterStart)-1] }()
 		exit := st.clone()
 		more := x.fresh("more", SBool)
 		exit.pc = append(exit.pc, Not(more))
@@ -519,10 +530,24 @@ func (x *Exec) execRange(st *State, s *ast.RangeStmt, label string) *State {
 		back := x.merge(nb, append([]*State{end}, lc.continues...))
 		if back != nil {
 			x.checkInvs(back, li, "inv-keep", s)
+			x.checkProgress(back, li, s)
 		}
 		x.abstracted("range over channel")
 		return x.merge(n, append([]*State{exit}, lc.breaks...))
 	}
 	x.unsupported(s, "range over %s", xt)
 	return nil
+}
+
+// checkProgress: the progress clauses of a loop hold whenever control returns
+// to the loop head (they may mention iterstart(e), the value at the start of
+// the iteration).
+func (x *Exec) checkProgress(back *State, li *LoopInfo, at ast.Node) {
+	if li == nil {
+		return
+	}
+	for _, pc := range li.Progress {
+		g := x.evalSpec(back, pc.Expr)
+		x.oblige(back, "progress", fmt.Sprintf("loop%d.%s", li.Ordinal, pc.Label), g, at)
+	}
 }
